@@ -265,6 +265,8 @@ def store_subscript(self, t, v, st, node):
                 self.unsupported('store of %s into an array' % type(v).__name__, node)
             new = base.copy(deg=top_deg(), taint=base.taint | taint_of(v) | taint_of(idx) | self.pc)
         else:
+            if base.cplx is False and nv.cplx is True and not nv.rv and not nv.zero:
+                self.conflict('store', 'dtype', 'a complex value is stored into a real array: its imaginary part is discarded', node)
             key = normalise(t.value)
             if self.frames[-1].strong.get(key):
                 # covering loop / first full overwrite: the old element type is dead
@@ -775,6 +777,13 @@ def s_For(self, s, st, frame):
         items = [x if isinstance(x, Val) else Const(x, it.taint) for x in it.v]
     elif isinstance(it, Tup) and len(it.items) <= 8 and not frame.loops:
         items = list(it.items)
+    elif getattr(self, 'unroll', False) and isinstance(it, Opaque) and it.what == 'range':
+        # bounded instance analysis: a range with concrete bounds and a short trip count is executed iteration by iteration
+        lo_, hi_, st_ = it.args
+        if lo_ is not None and hi_ is not None and lo_.is_const() and hi_.is_const() and isinstance(st_, int) and st_ != 0:
+            rng = range(int(lo_.c), int(hi_.c), st_)
+            if len(rng) <= 8:
+                items = [Const(i) for i in rng]
     if items is not None and not any(isinstance(n, (ast.Break, ast.Continue)) for b in s.body for n in ast.walk(b)):
         cur = st
         for x in items:
